@@ -17,9 +17,9 @@ from holopy.scattering.imageformation import select_scatterer_by_illumination
 from holopy.scattering.theory.mie_f import mieangfuncs, miescatlib
 
 ID = "C06"
-LEAN_MODULES = ["HoloProps.C06"]
-MODEL_MODULES = ["HoloModel.ImageFormation", "HoloModel.Composite", "HoloGen.Proj"]
-GEN_DEPS = ["Proj"]
+LEAN_MODULES = ["HoloProps.C06", "HoloProps.C08Gen"]
+MODEL_MODULES = ["HoloModel.ImageFormation", "HoloModel.Composite", "HoloGen.Proj", "HoloModel.CxExtra", "HoloGen.PyMieLens", "HoloGen.PyLens"]
+GEN_DEPS = ["Proj", "PyMieLens", "PyLens"]
 NOT_PROVED = [
     "xarray's selection by label (sel/concat along `illumination`) is assumed to be a finite-map lookup; prep_schema's branches are exercised by the search (multi-channel vs single-channel), not modelled branch by branch",
     "MieLens polarisation linearity: theorem in C05 (azimuth arithmetic); here search only",
